@@ -415,15 +415,6 @@ impl<T: ClusterKey> TopologyManager<T> {
         partition_replicas: &HashMap<PartitionId, ArrayVec<T, MAX_REPLICATION_FACTOR>>,
         active_nodes: HashMap<PeerId, (u64, usize)>,
     ) {
-        // Update our partition replica assignments
-        self.partition_replicas = partition_replicas.clone();
-
-        // Update active nodes, but keep ourselves active
-        let local_peer_id = *self.local_cluster_ref.id().peer_id().unwrap();
-        self.active_nodes = active_nodes;
-        self.active_nodes
-            .insert(local_peer_id, (self.alive_since, self.local_node_index));
-
         // Extract cluster refs from partition replicas to update our tracking
         for replicas in partition_replicas.values() {
             for cluster_ref in replicas {
@@ -431,6 +422,20 @@ impl<T: ClusterKey> TopologyManager<T> {
                     .insert(*cluster_ref.id().peer_id().unwrap(), cluster_ref.clone());
             }
         }
+
+        // Update active nodes (only those we can address), but keep ourselves active
+        let local_peer_id = *self.local_cluster_ref.id().peer_id().unwrap();
+        self.active_nodes = active_nodes
+            .into_iter()
+            .filter(|(peer_id, _)| self.cluster_nodes.contains_key(peer_id))
+            .collect();
+        self.active_nodes
+            .insert(local_peer_id, (self.alive_since, self.local_node_index));
+
+        // Derive the replica assignments from the membership instead of adopting the
+        // sender's view, which may predate nodes we know (including ourselves) and loses
+        // the replica order in transit.
+        self.recalculate_partition_assignments();
 
         // Update heartbeats for all active nodes
         let now = Instant::now();
